@@ -418,9 +418,118 @@ def parse_instant(s):
 
 
 def rspec(kind="authn", issuer=env.SP_ID, rid="rq-1", version="2.0", dt=0, spelling="Z", destination=None, marker="alice",
-          instant_absent=False):
-    return dict(kind=kind, issuer=issuer, id=rid, version=version, dt=dt, spelling=spelling, destination=destination,
-                marker=marker, instant_absent=instant_absent)
+          instant_absent=False, opts=None):
+    r = dict(kind=kind, issuer=issuer, id=rid, version=version, dt=dt, spelling=spelling, destination=destination,
+             marker=marker, instant_absent=instant_absent)
+    if opts:
+        r["opts"] = list(opts)
+    return r
+
+
+# ---------------------------------------------------------------------------
+# kind-specific OPTIONAL attributes / children (the library writes none of them by default).  An option is a name from
+# OPTS[kind]; times are offsets from NOW in seconds ("+10y" = ten years: ahead whatever clock is consulted).
+# ---------------------------------------------------------------------------
+YEARS10 = 10 * 366 * 86400
+_PASSWORD = "urn:oasis:names:tc:SAML:2.0:ac:classes:Password"
+
+
+def _subject_conf(off):
+    return saml.SubjectConfirmation(method=saml.SCM_BEARER, subject_confirmation_data=saml.SubjectConfirmationData(
+        not_on_or_after=instant(NOW + off), recipient=S + "/acs/post"))
+
+
+def _set(attr, value):
+    def f(o, r):
+        setattr(o, attr, value(r) if callable(value) else value)
+    return f
+
+
+def _noa(off):
+    return _set("not_on_or_after", instant(NOW + off))
+
+
+def _cond(nb, noa):
+    return _set("conditions", saml.Conditions(not_before=None if nb is None else instant(NOW + nb),
+                                              not_on_or_after=None if noa is None else instant(NOW + noa)))
+
+
+def _sc(off):
+    def f(o, r):
+        if o.subject is None:
+            o.subject = saml.Subject(name_id=saml.NameID(text=r["marker"], format=saml.NAMEID_FORMAT_TRANSIENT))
+        o.subject.subject_confirmation = [_subject_conf(off)]
+    return f
+
+
+_COMMON = {"consent": _set("consent", "urn:oasis:names:tc:SAML:2.0:consent:obtained"),
+           "extensions": _set("extensions", lambda r: samlp.Extensions(extension_elements=[
+               ExtensionElement("Note", namespace="urn:example:ext", attributes={"NotOnOrAfter": instant(NOW + YEARS10)}, text="n")]))}
+_RAC = _set("requested_authn_context", lambda r: samlp.RequestedAuthnContext(
+    authn_context_class_ref=[saml.AuthnContextClassRef(text=_PASSWORD)], comparison="exact"))
+OPTS = {
+    "logout": dict(_COMMON, **{
+        "noa+3600": _noa(3600), "noa+2d": _noa(2 * 86400), "noa+10y": _noa(YEARS10), "noa-3600": _noa(-3600), "noa-2d": _noa(-2 * 86400),
+        "noa+1": _noa(1), "noa0": _noa(0),
+        "reason-user": _set("reason", "urn:oasis:names:tc:SAML:2.0:logout:user"),
+        "reason-admin": _set("reason", "urn:oasis:names:tc:SAML:2.0:logout:admin"),
+        "sidx": _set("session_index", lambda r: [samlp.SessionIndex(text="s-1")]),
+        "sidx2": _set("session_index", lambda r: [samlp.SessionIndex(text="s-1"), samlp.SessionIndex(text="s-2")]),
+    }),
+    "authn": dict(_COMMON, **{
+        "cond-open": _cond(-60, 3600), "cond-wide": _cond(-3 * 86400, YEARS10), "cond-past": _cond(-7200, -3600),
+        "cond-future": _cond(3600, 7200), "cond-noa": _cond(None, YEARS10), "cond-nb": _cond(-YEARS10, None),
+        "acs-index": lambda o, r: (setattr(o, "assertion_consumer_service_url", None), setattr(o, "assertion_consumer_service_index", "1"),
+                                   setattr(o, "provider_name", "SP of " + r["marker"])),
+        "subject": _set("subject", lambda r: saml.Subject(name_id=saml.NameID(text=r["marker"], format=saml.NAMEID_FORMAT_TRANSIENT))),
+        "subject-sc+": _sc(YEARS10), "subject-sc-": _sc(-3600),
+        "force": _set("force_authn", "true"), "force-false": _set("force_authn", "false"),
+        "passive": _set("is_passive", "true"), "passive-false": _set("is_passive", "false"),
+        "scoping": _set("scoping", lambda r: samlp.Scoping(
+            proxy_count="1", idp_list=samlp.IDPList(idp_entry=[samlp.IDPEntry(provider_id=env.IDP2_ID, name="two")]),
+            requester_id=[samlp.RequesterID(text=env.SP2_ID)])),
+        "nidpol": _set("name_id_policy", lambda r: samlp.NameIDPolicy(allow_create="true", format=saml.NAMEID_FORMAT_PERSISTENT)),
+        "rac": _RAC,
+        "pbinding": _set("protocol_binding", BINDING_HTTP_POST),
+        "provider": _set("provider_name", "SP one"),
+        "attr-index": _set("attribute_consuming_service_index", "1"),
+    }),
+    "attrq": dict(_COMMON, **{
+        "attrs": _set("attribute", lambda r: [saml.Attribute(name="urn:oid:2.5.4.42", name_format=saml.NAME_FORMAT_URI, friendly_name="givenName"),
+                                              saml.Attribute(name="urn:oid:2.5.4.4", name_format=saml.NAME_FORMAT_URI)]),
+        "attr-values": _set("attribute", lambda r: [saml.Attribute(name="urn:oid:2.5.4.42", name_format=saml.NAME_FORMAT_URI,
+                                                                   attribute_value=[saml.AttributeValue(text=r["marker"])])]),
+        "sc+": _sc(YEARS10), "sc-": _sc(-3600),
+    }),
+    "authnq": dict(_COMMON, **{"sidx-attr": _set("session_index", "s-1"), "rac": _RAC, "sc+": _sc(YEARS10), "sc-": _sc(-3600)}),
+    "authz": dict(_COMMON, **{
+        "evidence": _set("evidence", lambda r: saml.Evidence(assertion_id_ref=[saml.AssertionIDRef(text="a-1")])),
+        "action2": _set("action", lambda r: [saml.Action(text="read", namespace="urn:x:actions"), saml.Action(text="write", namespace="urn:x:actions")]),
+        "sc+": _sc(YEARS10),
+    }),
+    "aidr": dict(_COMMON, **{
+        "ref2": _set("assertion_id_ref", lambda r: [saml.AssertionIDRef(text="a-" + r["marker"]), saml.AssertionIDRef(text="a-2")]),
+    }),
+    "nim": dict(_COMMON, **{
+        "nidpol-allow": _set("name_id_policy", lambda r: samlp.NameIDPolicy(format=saml.NAMEID_FORMAT_PERSISTENT, allow_create="true",
+                                                                           sp_name_qualifier=env.SP2_ID)),
+    }),
+    "mni": dict(_COMMON, **{
+        "newid": lambda o, r: (setattr(o, "terminate", None), setattr(o, "new_id", samlp.NewID(text="new-" + r["marker"]))),
+    }),
+}
+# the option sets walked for each kind: every option alone, and the combinations that carry several at once
+OPT_SETS = {
+    "logout": [[o] for o in sorted(OPTS["logout"])] + [["noa+10y", "reason-user", "sidx"], ["noa-2d", "reason-admin", "sidx2", "consent"]],
+    "authn": [[o] for o in sorted(OPTS["authn"])] + [["cond-wide", "subject-sc+", "force", "passive", "scoping", "nidpol", "rac"],
+                                                    ["cond-past", "force-false", "passive-false", "provider", "pbinding"]],
+    "attrq": [[o] for o in sorted(OPTS["attrq"])] + [["attrs", "sc+", "consent"]],
+    "authnq": [[o] for o in sorted(OPTS["authnq"])] + [["sidx-attr", "rac", "sc+"]],
+    "authz": [[o] for o in sorted(OPTS["authz"])] + [["evidence", "action2", "sc+"]],
+    "aidr": [[o] for o in sorted(OPTS["aidr"])] + [["ref2", "consent"]],
+    "nim": [[o] for o in sorted(OPTS["nim"])] + [["nidpol-allow", "consent"]],
+    "mni": [[o] for o in sorted(OPTS["mni"])] + [["newid", "consent"]],
+}
 
 
 def build_request(r):
@@ -437,6 +546,13 @@ def build_request(r):
             return ExtensionElement("Note", namespace="urn:example:ext", attributes={"ID": ids[0]}, text=None if ids[1:] else "n",
                                     children=[note(ids[1:])] if ids[1:] else None)
         base["extensions"] = samlp.Extensions(extension_elements=[note(list(i)) if isinstance(i, (list, tuple)) else note([i]) for i in r["ext_ids"]])
+    obj = _build_kind(r, base, nid)
+    for o in r.get("opts") or []:
+        OPTS[r["kind"]][o](obj, r)
+    return obj
+
+
+def _build_kind(r, base, nid):
     k = r["kind"]
     if k == "authn":
         return samlp.AuthnRequest(assertion_consumer_service_url=S + "/acs/" + r["marker"], **base)
@@ -508,6 +624,8 @@ def mutate(xml, name, r, donor=None, forged=None):
             for a, v in list(root.attrib.items()):
                 if r["marker"] in v:
                     root.set(a, v.replace(r["marker"], "mallory"))
+        if _ser(root) == _ser(ET.fromstring(xml)):
+            return None                                   # nothing to edit in this request
         return _ser(root), meta
     if name.startswith("edit-destination:"):
         root.set("Destination", name.split(":", 1)[1])
@@ -533,7 +651,8 @@ def mutate(xml, name, r, donor=None, forged=None):
         root.find("{%s}Issuer" % SAML).text = " " + r["issuer"] + "\n"
         return _ser(root), meta
     if name == "add-attribute":
-        root.set("Consent", "urn:oasis:names:tc:SAML:2.0:consent:obtained")
+        c = "urn:oasis:names:tc:SAML:2.0:consent:obtained"
+        root.set("Consent", c if root.get("Consent") != c else "urn:oasis:names:tc:SAML:2.0:consent:prior")
         return _ser(root), meta
     if name == "add-child":
         ext = ET.Element("{%s}Extensions" % SAMLP)
@@ -665,7 +784,36 @@ def doc_fields(root, valid):
                 if cert is not None and cert.text:
                     emb.append(_cert_id("".join(cert.text.split())))
     return dict(version=root.get("Version"), destination=root.get("Destination"),
-                instant=parse_instant(root.get("IssueInstant")), issuer=iss, embedded=emb, valid=valid)
+                instant=parse_instant(root.get("IssueInstant")), issuer=iss, embedded=emb, valid=valid,
+                opts=optional_content(root))
+
+
+def _local(tag):
+    return tag.split("}", 1)[-1]
+
+
+def optional_content(root):
+    """the harness's own reading of the kind-specific content of the root: [(path, seconds | None)] - every attribute of
+    the root beyond ID / Version / IssueInstant / Destination, every child beyond Issuer / Signature / Extensions, and
+    every attribute below such a child that reads as an xs:dateTime"""
+    out = []
+    for a, v in sorted(root.attrib.items()):
+        if a not in ("ID", "Version", "IssueInstant", "Destination"):
+            out.append((_local(a), parse_instant(v)))
+    for ch in root:
+        if ch.tag in ("{%s}Issuer" % SAML, SIG, "{%s}Extensions" % SAMLP):
+            continue
+
+        def walk(el, path):
+            for a, v in sorted(el.attrib.items()):
+                t = parse_instant(v)
+                if t is not None:
+                    out.append((path + "/@" + _local(a), t))
+            for c in el:
+                walk(c, path + "/" + _local(c.tag))
+        out.append((_local(ch.tag), None))
+        walk(ch, _local(ch.tag))
+    return out
 
 
 _certids = None
@@ -685,9 +833,10 @@ def doc_coq(xml, valid):
     tree = symbolic(root)
     # the schema requires ID, Version and a well-formed IssueInstant on every request
     f["valid"] = valid = bool(valid and f["instant"] is not None and root.get("ID") and root.get("Version"))
-    term = "(Build_reqdoc %s %s %s %s %s %s %s)" % (
+    term = "(Build_reqdoc %s %s %s %s %s %s %s %s)" % (
         coq_tree(tree), copt(f["version"], cstr), copt(f["destination"], cstr), copt(f["instant"], cz),
-        cbool(valid), copt(f["issuer"], cstr), clist(f["embedded"], lambda n: "%d" % n))
+        cbool(valid), copt(f["issuer"], cstr), clist(f["embedded"], lambda n: "%d" % n),
+        clist(f["opts"], lambda o: "(%s, %s)" % (cstr(o[0]), copt(o[1], cz))))
     f["tree"] = tree
     f["root_tag"] = root.tag
     f["signed"] = any(ch.tag == SIG for ch in root)
